@@ -11,7 +11,14 @@ import (
 // @v1, ...: every treatment replaces @ by its own fresh prefix).
 type Ver struct {
 	Params []string `json:"params"`
-	Body   string   `json:"body"`
+	// Tail: the part of the lambda list behind the required parameters
+	// (&optional / &rest / &key with init forms); it may differ from version to
+	// version, every call site of the program fits every version.
+	Tail string `json:"tail,omitempty"`
+	// Macro: this version is a defmacro of the same call shape whose body is the
+	// backquote template Body (probe only).
+	Macro bool   `json:"macro,omitempty"`
+	Body  string `json:"body"`
 	// Wrap: the binding forms the defun is written inside, outermost first,
 	// each without its closing parenthesis, e.g. "(let ((@a 50))"; the
 	// function body uses those variables (a closure).
@@ -33,6 +40,7 @@ type Step struct {
 	Fn       int    `json:"fn,omitempty"`  // redef: function index
 	Ver      int    `json:"ver,omitempty"` // redef: version index
 	Compiled bool   `json:"compiled,omitempty"`
+	Via      string `json:"via,omitempty"` // redef: how the new definition is delivered: "" (read, Compiled or not, eval) | evalfn | cstring | load
 }
 
 // Mac is one macro of a program: (defmacro @macK (params [&rest r]) `template).
@@ -65,6 +73,37 @@ type sig struct {
 	ret     string
 	rec     int // -1 or partner/self index
 	group   int // highest index of the recursion group (or own index)
+	// the part of the lambda list that changes between versions
+	fam    string      // "" fixed | opt (&optional / &rest) | key (&key / &rest &key / &rest)
+	shapes []tailShape // one per version
+	extra  int         // fam opt: every version takes up to this many arguments behind the required ones
+	over   int         // fam opt: some version rejects this many arguments behind the required ones (0 = none does)
+	pool   []string    // fam key: the keyword names of all versions
+}
+
+type tparam struct {
+	name   string
+	hasDef bool
+}
+
+// tailShape is the shape of one version's lambda list behind the required
+// parameters; the init forms are written when the version is generated.
+type tailShape struct {
+	opts   []tparam
+	rest   string
+	hasKey bool
+	keys   []tparam
+}
+
+func (t tailShape) capacity() int {
+	if t.rest != "" || t.hasKey {
+		return 99
+	}
+	return len(t.opts)
+}
+
+func (t tailShape) key() string {
+	return fmt.Sprint(len(t.opts), t.rest != "", t.hasKey, t.keys)
 }
 
 type gen struct {
@@ -75,6 +114,7 @@ type gen struct {
 	tr     int
 	nv     int
 	noargs bool
+	shaped bool // functions have &optional / &rest / &key parts that change with the version
 	rich   bool // use the wider set of special forms
 	macs   []Mac
 	maxMac int // macros with an index below this may be used in the code being generated
@@ -151,6 +191,68 @@ func (g *gen) call(sc scope, j, d int) string {
 		}
 		args = append(args, g.intExpr(sc, d-1))
 	}
+	args = append(args, g.tailArgs(sc, j, d, false)...)
+	return g.callForm(j, args)
+}
+
+// tailArgs renders the arguments behind the required ones of a call of
+// function j that fits every version of j: up to sig.extra positional ones
+// (fam opt), keyword pairs from the pool of all versions (fam key: slip
+// allows and ignores a keyword the current version does not declare). over:
+// as many positional arguments as some version rejects (the call is written
+// inside ignore-errors).
+func (g *gen) tailArgs(sc scope, j, d int, over bool) []string {
+	s := g.sigs[j]
+	var args []string
+	small := func() string { return g.intExpr(sc, min(d-1, 1)) }
+	switch s.fam {
+	case "opt":
+		n := g.r.IntN(s.extra + 1)
+		if over {
+			n = s.over
+		}
+		for k := 0; k < n; k++ {
+			args = append(args, small())
+		}
+	case "key":
+		ks := append([]string{}, s.pool...)
+		g.r.Shuffle(len(ks), func(a, b int) { ks[a], ks[b] = ks[b], ks[a] })
+		for _, k := range ks[:g.r.IntN(len(ks)+1)] {
+			args = append(args, ":"+k, small())
+		}
+	}
+	return args
+}
+
+// guarded renders (list (ignore-errors call)) for a call with more positional
+// arguments than some version of the callee takes: nil while the current
+// version rejects it, the value once a version accepts it.
+func (g *gen) guarded(sc scope, d int) string {
+	var cand []int
+	for _, j := range sc.calls {
+		if 0 < g.sigs[j].over {
+			cand = append(cand, j)
+		}
+	}
+	if len(cand) == 0 {
+		return ""
+	}
+	j := cand[g.r.IntN(len(cand))]
+	s := g.sigs[j]
+	var args []string
+	for k := 0; k < s.nparams; k++ {
+		if k == 0 && 0 <= s.rec {
+			args = append(args, fmt.Sprint(g.r.IntN(4)))
+			continue
+		}
+		args = append(args, g.intExpr(sc, min(d-1, 1)))
+	}
+	args = append(args, g.tailArgs(sc, j, d, true)...)
+	return fmt.Sprintf("(list (ignore-errors %s))", g.callForm(j, args))
+}
+
+func (g *gen) callForm(j int, args []string) string {
+	s := g.sigs[j]
 	var form string
 	style := g.r.IntN(16)
 	if len(args) == 0 && style < 2 {
@@ -281,6 +383,11 @@ func (g *gen) listExpr(sc scope, d int) string {
 	for {
 		if 0 < g.maxMac && g.r.IntN(9) == 0 {
 			if u := g.macroUse(sc, d, "list"); u != "" {
+				return u
+			}
+		}
+		if g.shaped && g.r.IntN(8) == 0 {
+			if u := g.guarded(sc, d); u != "" {
 				return u
 			}
 		}
@@ -511,16 +618,35 @@ func (g *gen) version(i, ver int) Ver {
 		}
 		return e
 	}
+	// the part of the lambda list behind the required parameters: init forms
+	// use the required parameters, the closed-over variables, globals, markers
+	var (
+		tailSrc  string
+		tailVars []string
+		tailed   = func(e string) string { return e }
+	)
+	if s.fam != "" {
+		var req []string
+		if s.rec < 0 || g.noargs {
+			req = ps
+		} else {
+			req = ps[1:] // the first one is renamed to the counter below
+		}
+		tailSrc, tailVars, tailed = g.tail(s, s.shapes[ver], append(append([]string{}, req...), cvars...))
+	}
 	if s.rec < 0 {
 		for _, p := range ps {
 			sc = sc.with(p, true)
+		}
+		for _, tv := range tailVars {
+			sc = sc.with(tv, true)
 		}
 		var body []string
 		if g.r.IntN(3) == 0 {
 			body = append(body, g.stmt(sc, d-1))
 		}
-		body = append(body, closed(g.expr(sc, d, s.ret)))
-		return Ver{Params: ps, Body: strings.Join(body, " "), Wrap: wrap}
+		body = append(body, tailed(closed(g.expr(sc, d, s.ret))))
+		return Ver{Params: ps, Tail: tailSrc, Body: strings.Join(body, " "), Wrap: wrap}
 	}
 	// recursion on a decreasing counter
 	var counter, dec, pre string
@@ -536,13 +662,17 @@ func (g *gen) version(i, ver int) Ver {
 			sc = sc.with(p, true)
 		}
 	}
-	base := closed(g.expr(sc, d-1, s.ret))
+	for _, tv := range tailVars {
+		sc = sc.with(tv, true)
+	}
+	base := tailed(closed(g.expr(sc, d-1, s.ret)))
 	var rargs []string
 	if !g.noargs {
 		rargs = append(rargs, dec)
 		for k := 1; k < g.sigs[s.rec].nparams; k++ {
 			rargs = append(rargs, g.intExpr(sc, 1))
 		}
+		rargs = append(rargs, g.tailArgs(sc, s.rec, 2, false)...)
 	}
 	rcall := fmt.Sprintf("(@f%d%s)", s.rec, sp(rargs))
 	var step string
@@ -590,13 +720,184 @@ func (g *gen) version(i, ver int) Ver {
 	default:
 		body = fmt.Sprintf("(if (<= %s 0) %s (progn %s %s))", counter, base, g.tracer(counter), step)
 	}
-	return Ver{Params: ps, Body: body, Wrap: wrap}
+	return Ver{Params: ps, Tail: tailSrc, Body: body, Wrap: wrap}
+}
+
+// tail writes the lambda-list tail of one version: the source text, the
+// integer variables it binds (parameters with an init form: always an
+// integer) and a wrapper that makes the result depend on every tail parameter.
+func (g *gen) tail(s sig, t tailShape, vars []string) (src string, ints []string, tailed func(string) string) {
+	initForm := func() string {
+		n := g.r.IntN(8)
+		switch {
+		case n < 2 && 0 < len(vars):
+			return fmt.Sprintf("(+ %s %d)", vars[g.r.IntN(len(vars))], 1+g.r.IntN(9))
+		case n < 3 && 0 < len(vars):
+			return vars[g.r.IntN(len(vars))]
+		case n < 4 && g.hasGlobal():
+			return g.global()
+		case n < 5:
+			return g.tracer(fmt.Sprint(10 + g.r.IntN(90)))
+		case n < 6:
+			return fmt.Sprintf("(* %d %d)", 2+g.r.IntN(8), 2+g.r.IntN(8))
+		}
+		return fmt.Sprint(10 + g.r.IntN(90))
+	}
+	var parts, uses []string // uses: per tail parameter, how the result depends on it (%s = the value so far)
+	param := func(p tparam) {
+		if !p.hasDef {
+			parts = append(parts, p.name)
+			if s.ret == "int" {
+				uses = append(uses, fmt.Sprintf("(+ %%s (if %s %s 0))", p.name, p.name))
+			} else {
+				uses = append(uses, fmt.Sprintf("(cons %s %%s)", p.name))
+			}
+			return
+		}
+		parts = append(parts, fmt.Sprintf("(%s %s)", p.name, initForm()))
+		ints = append(ints, p.name)
+		if s.ret == "int" {
+			uses = append(uses, fmt.Sprintf("(+ %%s %s)", p.name))
+		} else {
+			uses = append(uses, fmt.Sprintf("(cons %s %%s)", p.name))
+		}
+	}
+	if 0 < len(t.opts) {
+		parts = append(parts, "&optional")
+		for _, p := range t.opts {
+			param(p)
+		}
+	}
+	if t.rest != "" {
+		parts = append(parts, "&rest", t.rest)
+		if s.ret == "int" {
+			uses = append(uses, fmt.Sprintf("(+ %%s (length %s))", t.rest))
+		} else {
+			uses = append(uses, fmt.Sprintf("(append %s %%s)", t.rest))
+		}
+	}
+	if t.hasKey {
+		parts = append(parts, "&key")
+		for _, p := range t.keys {
+			param(p)
+		}
+	}
+	tailed = func(e string) string {
+		for _, u := range uses {
+			e = fmt.Sprintf(u, e)
+		}
+		return e
+	}
+	return strings.Join(parts, " "), ints, tailed
+}
+
+// planShapes decides the lambda-list tails of all versions of function i.
+func (g *gen) planShapes(i, nver int) {
+	s := &g.sigs[i]
+	r := g.r
+	def := func() bool { return r.IntN(4) != 0 }
+	switch s.fam {
+	case "opt":
+		// floor: every version takes at least this many arguments behind the required ones
+		floor := r.IntN(3)
+		for v := 0; v < nver; v++ {
+			var t tailShape
+			for tries := 0; tries < 4; tries++ {
+				t = tailShape{}
+				nopt := r.IntN(3)
+				rest := r.IntN(3) == 0
+				if !rest && nopt < floor {
+					nopt = floor
+				}
+				names := []string{"@o1", "@o2"}
+				if v%2 == 1 && r.IntN(2) == 0 {
+					names = []string{"@u1", "@u2"}
+				}
+				for k := 0; k < nopt; k++ {
+					t.opts = append(t.opts, tparam{names[k], def()})
+				}
+				if rest {
+					t.rest = []string{"@rs", "@rt"}[r.IntN(2)]
+				}
+				if v == 0 || len(t.opts) != len(s.shapes[v-1].opts) || (t.rest != "") != (s.shapes[v-1].rest != "") {
+					break
+				}
+				// the same shape again: accepted after 4 tries (only the init forms change)
+			}
+			s.shapes = append(s.shapes, t)
+		}
+		s.extra = 99
+		minFinite := 99
+		for _, t := range s.shapes {
+			s.extra = min(s.extra, t.capacity())
+			if t.rest == "" {
+				minFinite = min(minFinite, len(t.opts))
+			}
+		}
+		s.extra = min(s.extra, 3)
+		if minFinite < 4 {
+			s.over = minFinite + 1
+		}
+	case "key":
+		all := []string{"@ka", "@kb", "@kc", "@kd"}
+		r.Shuffle(len(all), func(a, b int) { all[a], all[b] = all[b], all[a] })
+		s.pool = all[:3+r.IntN(2)]
+		cur := append([]string{}, s.pool[:1+r.IntN(2)]...)
+		rest := ""
+		for v := 0; v < nver; v++ {
+			if 0 < v {
+				var outside []string
+				for _, k := range s.pool {
+					in := false
+					for _, c := range cur {
+						in = in || c == k
+					}
+					if !in {
+						outside = append(outside, k)
+					}
+				}
+				switch op := r.IntN(7); {
+				case op < 2 && 0 < len(outside): // grow
+					cur = append(cur, outside[r.IntN(len(outside))])
+					r.Shuffle(len(cur), func(a, b int) { cur[a], cur[b] = cur[b], cur[a] })
+				case op < 3 && 1 < len(cur): // shrink
+					k := r.IntN(len(cur))
+					cur = append(append([]string{}, cur[:k]...), cur[k+1:]...)
+				case op < 5 && 0 < len(outside): // rename one
+					cur = append([]string{}, cur...)
+					cur[r.IntN(len(cur))] = outside[r.IntN(len(outside))]
+				case op < 6: // &rest added or removed
+					if rest == "" {
+						rest = "@rs"
+					} else {
+						rest = ""
+					}
+				default: // same keys in another order, new init forms
+					cur = append([]string{}, cur...)
+					r.Shuffle(len(cur), func(a, b int) { cur[a], cur[b] = cur[b], cur[a] })
+				}
+			}
+			t := tailShape{rest: rest, hasKey: true}
+			if 0 < v && r.IntN(10) == 0 {
+				// &rest alone: the keyword pairs of the call sites are its elements
+				t = tailShape{rest: "@rt"}
+			} else {
+				for _, k := range cur {
+					t.keys = append(t.keys, tparam{k, def()})
+				}
+			}
+			s.shapes = append(s.shapes, t)
+		}
+	}
 }
 
 // genCase builds one program. class: 0 = functions with arguments, 1 = all
 // functions without parameters (forward references without arguments).
 func genCase(r *rand.Rand, noargs bool, multiRedef bool) Case {
 	g := &gen{r: r, noargs: noargs, rich: r.IntN(3) != 0}
+	// half of the programs with arguments have functions whose lambda list has an
+	// &optional / &rest / &key part that changes from version to version
+	g.shaped = !noargs && r.IntN(2) == 0
 	n := 2 + r.IntN(3)
 	g.sigs = make([]sig, n)
 	for i := range g.sigs {
@@ -612,6 +913,15 @@ func genCase(r *rand.Rand, noargs bool, multiRedef bool) Case {
 			ret = "list"
 		}
 		g.sigs[i] = sig{nparams: np, ret: ret, rec: -1, group: i}
+		if g.shaped {
+			g.sigs[i].fam = []string{"", "opt", "key", "opt", "key"}[r.IntN(5)]
+		}
+	}
+	var shapedFns []int
+	for i := range g.sigs {
+		if g.sigs[i].fam != "" {
+			shapedFns = append(shapedFns, i)
+		}
 	}
 	// recursion shape
 	switch r.IntN(4) {
@@ -693,6 +1003,9 @@ func genCase(r *rand.Rand, noargs bool, multiRedef bool) Case {
 			continue
 		}
 		f := r.IntN(n)
+		if 0 < len(shapedFns) && r.IntN(4) != 0 {
+			f = shapedFns[r.IntN(len(shapedFns))]
+		}
 		if multiRedef {
 			if 0 <= last && r.IntN(3) != 0 {
 				f = last
@@ -709,7 +1022,11 @@ func genCase(r *rand.Rand, noargs bool, multiRedef bool) Case {
 			}
 		}
 		last = f
-		c.Hist = append(c.Hist, Step{Op: "redef", Fn: f, Ver: nver[f], Compiled: r.IntN(2) == 0})
+		st := Step{Op: "redef", Fn: f, Ver: nver[f], Compiled: r.IntN(2) == 0}
+		if via := r.IntN(8); via < 3 {
+			st.Via = []string{"evalfn", "cstring", "load"}[via]
+		}
+		c.Hist = append(c.Hist, st)
 		nver[f]++
 		switch r.IntN(3) {
 		case 0:
@@ -734,6 +1051,9 @@ func genCase(r *rand.Rand, noargs bool, multiRedef bool) Case {
 	g.maxMac = len(g.macs)
 	// functions
 	for i := range g.sigs {
+		g.planShapes(i, nver[i])
+	}
+	for i := range g.sigs {
 		fn := Fn{Ret: g.sigs[i].ret, Rec: g.sigs[i].rec}
 		for v := 0; v < nver[i]; v++ {
 			fn.Vers = append(fn.Vers, g.version(i, v))
@@ -754,6 +1074,17 @@ func genCase(r *rand.Rand, noargs bool, multiRedef bool) Case {
 			el = append(el, g.anyExpr(msc, 2))
 		default:
 			el = append(el, g.call(msc, r.IntN(n), 2))
+		}
+	}
+	for _, i := range shapedFns {
+		// a function whose lambda list changes is called from the main form as well
+		if 1 < nver[i] && r.IntN(4) != 0 {
+			el = append(el, g.call(msc, i, 2))
+		}
+	}
+	if g.shaped && r.IntN(2) == 0 {
+		if u := g.guarded(msc, 2); u != "" {
+			el = append(el, u)
 		}
 	}
 	r.Shuffle(len(el), func(a, b int) { el[a], el[b] = el[b], el[a] })
